@@ -117,7 +117,8 @@ def setup_worker(k):
     assert rc == 0, o
     shutil.copytree(os.path.join(ROOT, "harness"), os.path.join(w, "harness"), ignore=shutil.ignore_patterns("target"))
     ct = os.path.join(w, "harness", "Cargo.toml")
-    open(ct, "w").write(open(ct).read().replace('path = "/repo"', f'path = "{w}/repo"'))
+    txt = open(ct).read().replace('path = "/repo"', f'path = "{w}/repo"')
+    open(ct, "w").write(txt)
     return w
 
 
@@ -184,8 +185,71 @@ def run_mutant(w, m, base):
     return r
 
 
+CHEAP_FIRST = ["tables", "versionget", "bestmode", "compact", "conv", "text", "fileio", "wasm", "frames", "raster", "svg", "candgroups", "rs", "encode",
+               "maskop", "modes", "total", "corrupt", "formats", "thresholds", "maskgroups", "candidates", "threads", "histories", "cells"]
+
+
+def judge(results_path, workers):
+    """second phase: for every mutant whose traces differ, TLC judges the cheapest differing scenarios (up to 3) and the
+    properties of the diagnostics are recorded; 'unflagged' = a visible difference that no property predicate objects to."""
+    sys.path.insert(0, ROOT)
+    from vlib import runner
+    rs = [json.loads(l) for l in open(results_path) if l.strip()]
+    obs = [r for r in rs if r["status"] == "observed"]
+    print(f"{len(obs)} observed mutants to judge", flush=True)
+    ws = [setup_worker(k) for k in range(workers)]
+    outf = open(os.path.join(OUT, "judged.ndjson"), "a")
+    import queue, threading
+    q = queue.Queue()
+    for r in obs:
+        q.put(r)
+    lock = threading.Lock()
+
+    def work(w):
+        while True:
+            try:
+                m = q.get_nowait()
+            except queue.Empty:
+                return
+            repo = os.path.join(w, "repo")
+            sh("git checkout -q -- src", cwd=repo)
+            apply(repo, m)
+            d = drive_all(w, None)
+            props = {}
+            tried = []
+            for s in [x for x in CHEAP_FIRST if x in m["differs"]][:3]:
+                if d.get(s) in ("NOBUILD", "DRIVERFAIL", None):
+                    tried.append(s + ":" + str(d.get(s)))
+                    continue
+                try:
+                    tv = runner.validate_trace(os.path.join(w, f"{s}.ndjson"), os.path.join(w, "tv_" + s), nshards=3)
+                    for dg in tv["diags"]:
+                        props[dg["property"]] = props.get(dg["property"], 0) + 1
+                    tried.append(s)
+                except Exception as ex:
+                    tried.append(s + ":toolerror " + str(ex)[:80])
+                if props:
+                    break
+            sh("git checkout -q -- src", cwd=repo)
+            with lock:
+                outf.write(json.dumps(dict(m, judged=tried, diagnostics=props, verdict="flagged" if props else "unflagged")) + "\n")
+                outf.flush()
+                print(("FLAGGED " if props else "UNFLAGGED ") + f"#{m['id']} {m['file']}:{m['line']+1} '{m['old']}' -> '{m['new']}' {tried} {props}", flush=True)
+
+    ts = [threading.Thread(target=work, args=(w,)) for w in ws]
+    for t in ts:
+        t.start()
+    for t in ts:
+        t.join()
+    for w in ws:
+        sh(f"git -C /repo worktree remove --force {w}/repo")
+    shutil.rmtree(SCR, ignore_errors=True)
+
+
 def main():
     a = sys.argv[1:]
+    if "--judge" in a:
+        return judge(a[a.index("--judge") + 1], int(a[a.index("--workers") + 1]) if "--workers" in a else 3)
     def opt(name, default):
         return a[a.index(name) + 1] if name in a else default
     workers, limit, seed = int(opt("--workers", "4")), int(opt("--limit", "0")), int(opt("--seed", "1"))
@@ -199,6 +263,7 @@ def main():
     print(f"{len(muts)} mutants over {len(files)} files", flush=True)
     ws = [setup_worker(k) for k in range(workers)]
     base = drive_all(ws[0], "base")
+    assert not any(v in ("NOBUILD", "DRIVERFAIL") for v in base.values()), base
     again = drive_all(ws[0], None)
     unstable = [s for s in base if base[s] != again[s]]
     print("baseline traces:", {k: v for k, v in base.items()}, "unstable:", unstable, flush=True)
